@@ -554,9 +554,7 @@ def stepIter (s : ISt) (op : IOp) : String × ISt :=
     | .num n =>
       if n.fractNonZero then (errLine .value, s)
       else if n.ltZero then (errLine .value, s)
-      else
-        let r := it.skipNew n.toUsize s.w
-        (match r.1 with | .ok _ => "ok" | .err c => errLine c, { (s.put k r.2.1) with w := r.2.2 })
+      else ("ok", s.put k (it.skip n.toUsize))
     | .other => (errLine .runtime, s)
   | .zip k js => withIt k fun it =>
     match getAll s js with
